@@ -444,6 +444,9 @@ def run(p, rep, tier):
     r6(p, rep)
     r7(p, rep)
     r8(p, rep)
+    from . import c11 as _c11
+
+    _c11.r8(p, rep)  # a backend whose factory module deviates from its siblings behaves differently for this property
     from . import c06
 
     rep.rule("C06.R1", "cache-key classes compare and hash everything they hold", "T-SIB (__init__ vs __eq__ vs __hash__)", floor=2)
